@@ -336,6 +336,113 @@ theorem connect_then_disconnect (pre : Str) (t : TaskState) (es : List Evt)
     exact hc.symm
   exact disconnect_clean t (Or.inl this) es .ok (Or.inl rfl)
 
+/-! ### connect when a hook fails with an exception of ANY class
+
+The hooks `_connect` / `_subscribe` / `_disconnect` are an extension point, and aiomqtt sits on sockets and
+time-outs: what they raise is not limited to `MqttError` / `TransportError`.  The outcomes below range over
+every exception class of the vocabulary (`Outcome.raised c`, any `c`). -/
+
+theorem firstRaised_none_iff (os : List Outcome) : firstRaised os = none ↔ ∀ o ∈ os, o = .ok := by
+  induction os with
+  | nil => simp [firstRaised]
+  | cons o os ih =>
+    cases o with
+    | ok => simp [firstRaised, ih]
+    | raised c => simp [firstRaised]
+
+/-- **`connect()` reports success exactly when `_connect` and every one of the `_subscribe` calls
+returned** — a subscription that fails with an exception of any class, at any position, makes the call
+raise; nothing is dropped. -/
+theorem hook_connect_ok_iff (pre : Str) (c d : Outcome) (sub : Str → Outcome) :
+    (hookConnect pre c sub d).result = .ok ↔ c = .ok ∧ ∀ f ∈ filters pre, sub f = .ok := by
+  cases c with
+  | raised e => simp [hookConnect]
+  | ok =>
+    cases h : firstRaised ((filters pre).map sub) with
+    | none =>
+      have h' := (firstRaised_none_iff _).mp h
+      simp only [hookConnect, h, true_and]
+      constructor
+      · intro _ f hf
+        exact h' (sub f) (List.mem_map.mpr ⟨f, hf, rfl⟩)
+      · intro _; trivial
+    | some e =>
+      have hn : ¬ ∀ o ∈ (filters pre).map sub, o = .ok := by
+        rw [← firstRaised_none_iff, h]; simp
+      simp only [hookConnect, h, true_and]
+      constructor
+      · intro hr; cases d <;> simp at hr
+      · intro hall
+        exact absurd (fun o ho => by
+          obtain ⟨f, hf, rfl⟩ := List.mem_map.mp ho
+          exact hall f hf) hn
+
+/-- **Never silently deaf after a reported success**: when `connect()` returns, every broker message on
+`<in-prefix>/node/child/command/ack/type` with command 0-4 matches a subscription that is in place
+(its `_subscribe` call returned) — whatever any hook raised, of whatever class. -/
+theorem connected_hears_every_command (pre : Str) (c d : Outcome) (sub : Str → Outcome)
+    (hok : (hookConnect pre c sub d).result = .ok) (m : Msg) (h0 : 0 ≤ m.cmd) (h4 : m.cmd ≤ 4) :
+    ∃ f ∈ (hookConnect pre c sub d).inPlace, matchesFilter f (topicOf pre m) = true := by
+  obtain ⟨hc, hall⟩ := (hook_connect_ok_iff pre c d sub).mp hok
+  subst hc
+  have hfr : firstRaised ((filters pre).map sub) = none :=
+    (firstRaised_none_iff _).mpr (fun o ho => by
+      obtain ⟨f, hf, rfl⟩ := List.mem_map.mp ho
+      exact hall f hf)
+  obtain ⟨f, hf, hm⟩ := subscribed_msg pre m h0 h4
+  refine ⟨f, ?_, hm⟩
+  simp only [hookConnect, hfr]
+  exact List.mem_filter.mpr ⟨hf, by simp [hall f hf]⟩
+
+/-- **A failed `connect()` leaves no half-open connection**: once `_connect` returned, a call that raises
+has awaited `_disconnect`, and no subscription is left in place. -/
+theorem failed_connect_not_half_open (pre : Str) (d : Outcome) (sub : Str → Outcome)
+    (hf : (hookConnect pre .ok sub d).result ≠ .ok) :
+    (hookConnect pre .ok sub d).cleanedUp = true ∧ (hookConnect pre .ok sub d).inPlace = [] := by
+  cases h : firstRaised ((filters pre).map sub) with
+  | none => simp [hookConnect, h] at hf
+  | some e => simp [hookConnect, h]
+
+/-- A `_subscribe` call failing with ANY class `e` for ANY of the filters makes `connect()` raise. -/
+theorem failed_subscribe_raises (pre : Str) (d : Outcome) (sub : Str → Outcome) (f : Str)
+    (hf : f ∈ filters pre) (e : PyExn) (he : sub f = .raised e) :
+    ∃ e', (hookConnect pre .ok sub d).result = .raised e' := by
+  cases hr : (hookConnect pre .ok sub d).result with
+  | ok =>
+    have := ((hook_connect_ok_iff pre .ok d sub).mp hr).2 f hf
+    rw [he] at this; cases this
+  | raised e' => exact ⟨e', rfl⟩
+
+theorem convert_ok_iff (cls : List PyExn) (e : MqttExn) (x : Outcome) : convert cls e x = .ok () ↔ x = .ok := by
+  cases x with
+  | ok => simp [convert]
+  | raised c => simp only [convert]; split <;> simp
+
+theorem mapM_convert_ok_iff (cls : List PyExn) (e : MqttExn) (subs : List Outcome) :
+    (∃ l, subs.mapM (convert cls e) = .ok l) ↔ ∀ o ∈ subs, o = .ok := by
+  induction subs with
+  | nil => simp [pure, Except.pure]
+  | cons o os ih =>
+    cases o with
+    | ok =>
+      simp only [List.mapM_cons, convert, bind, Except.bind, pure, Except.pure, List.mem_cons, forall_eq_or_imp, true_and]
+      rw [← ih]
+      cases os.mapM (convert cls e) <;> simp
+    | raised c =>
+      cases hp : pyCaught c cls <;>
+        simp [List.mapM_cons, convert, bind, Except.bind, hp]
+
+/-- The same for `MQTTClient` on aiomqtt: `connect` hands over a receive task exactly when `__aenter__` and
+all `subscribe` calls returned; an exception of any class out of any of them is an error of the call. -/
+theorem connect_ok_iff (aenter : Outcome) (subs : List Outcome) :
+    (∃ t, connect aenter subs = .ok t) ↔ aenter = .ok ∧ ∀ o ∈ subs, o = .ok := by
+  rw [← mapM_convert_ok_iff (clause Gen.excMqttSubscribe 0) MqttExn.transportError subs]
+  cases aenter with
+  | raised c => cases hp : pyCaught c (clause Gen.excMqttConnect 0) <;> simp [connect, convert, hp]
+  | ok =>
+    simp only [connect, convert, true_and]
+    cases subs.mapM (convert (clause Gen.excMqttSubscribe 0) MqttExn.transportError) <;> simp
+
 /-! ### Non-vacuity -/
 
 /-- The position message satisfies the hypothesis of the mapping theorems. -/
@@ -374,6 +481,24 @@ example : (tRun {} [.read, .broker (.message "p/1/2/1/0/2".toList [0xff, 0xfe]),
 
 example : disconnect .waiting (.raised .MqttError) = .ok := by decide
 example : disconnect (taskRun .waiting [.mqttError]).1 .ok = .ok := by decide
+
+/-- The subscribe call for command 1 times out (an `OSError` subclass, no library error): `connect()` raises it,
+has awaited `_disconnect`, nothing is in place. -/
+example : hookConnect "p".toList .ok (fun f => if f = "p/+/+/1/+/+".toList then .raised .OSError else .ok) .ok =
+    ⟨.raised .OSError, [], true⟩ := by decide
+
+/-- Two calls fail, the clean-up fails too: the caller sees the clean-up's exception. -/
+example : hookConnect "p".toList .ok
+    (fun f => if f = "p/+/+/3/+/+".toList then .raised .CancelledError
+      else if f = "p/+/+/4/+/+".toList then .raised .KeyError else .ok) (.raised .RuntimeError) =
+    ⟨.raised .RuntimeError, [], true⟩ := by decide
+
+/-- Healthy hooks: all five filters in place (hypothesis of `connected_hears_every_command`). -/
+example : (hookConnect "a/b".toList .ok (fun _ => .ok) .ok).result = .ok ∧
+    (hookConnect "a/b".toList .ok (fun _ => .ok) .ok).inPlace.length = 5 := by decide
+
+/-- `MQTTClient`: the third `subscribe` raises `ValueError` (paho) - the call raises it, unconverted. -/
+example : connect .ok [.ok, .ok, .raised .ValueError, .ok, .ok] = .error (.foreign .ValueError) := by rfl
 
 /-! ### The client object: connect, disconnect, connect again
 
@@ -497,6 +622,30 @@ theorem failed_subscription_leaves_nothing (s : OState) (hs : Clean s) (subs : L
     cases h
     simp only [oStep, hr, suppress_aexit disconnect_clauses hax]
     rfl
+
+/-- **The object reports a successful `connect` exactly when it was free to connect and `__aenter__` and
+every `subscribe` call returned** — for outcomes of any exception class, in any state of the object. -/
+theorem object_connect_done_iff (s : OState) (aenter ax : Outcome) (subs : List Outcome) :
+    (oStep s (.connect aenter subs ax)).2 = .done ↔
+      Clean s ∧ aenter = .ok ∧ ∀ o ∈ subs, o = .ok := by
+  simp only [oStep]
+  by_cases hg : s.client = true ∨ s.task.isSome = true
+  · rw [oConnect_guard hg]
+    constructor
+    · intro h; simp [ORes.ofUnit] at h
+    · rintro ⟨⟨hc, ht⟩, _⟩
+      rcases hg with h | h
+      · rw [hc] at h; cases h
+      · rw [ht] at h; cases h
+  · have hc : s.client = false := by cases h : s.client <;> simp_all
+    have ht : s.task = none := by cases h : s.task <;> simp_all
+    rw [← connect_ok_iff]
+    rcases oConnect_clean incoming_clauses disconnect_clauses hc ht aenter subs ax with
+      ⟨t, h, e⟩ | ⟨e1, _, h, _, e⟩ | ⟨e1, h, _, e⟩
+    · rw [e]; simp [ORes.ofUnit, Clean, hc, ht, h]
+    · rw [e]; simp [ORes.ofUnit, h]
+    · rw [e]
+      cases suppress (clause Gen.excMqttDisconnect 1) ax <;> simp [ORes.ofUnit, h]
 
 /-- **Observation (not a clause of the property): a failed broker connection leaves `_client` set.**
 `_connect` assigns `self._client` before it awaits `__aenter__` and nothing resets it when that raises.
